@@ -65,13 +65,19 @@ type (
 		ch      []c16Chunk
 		backing string
 	}
-	c16Rsp  struct{ k int; ok bool } // the response to request k
+	c16Rsp struct {
+		k  int
+		ok bool
+	} // the response to request k
 	c16RspF struct {
 		r c16Rsp
 	}
-	c16Er   struct{ k int; non bool } // the error of request k
-	c16T    struct{ f []c16v }        // struct value or tuple
-	c16Fn   struct {
+	c16Er struct {
+		k   int
+		non bool
+	} // the error of request k
+	c16T  struct{ f []c16v } // struct value or tuple
+	c16Fn struct {
 		fn    *ssa.Function
 		binds []c16v
 	}
@@ -1231,6 +1237,7 @@ type c16Ob struct {
 	where  string
 	eq     *LinForm  // must be 0 under the invariant
 	geq    []LinForm // … or: one of these must be a constant ≥ 0 under the invariant
+	vac    *LinForm  // the equality says nothing when this (the length of the chunk placed) is 0
 	what   string    // what the equality says, in words
 	failed string    // decided already: failed for this reason
 }
@@ -1369,6 +1376,49 @@ func (a *c16An) reduce(sp *c16Space, q c16Q) c16Q {
 	return out
 }
 
+// simplest: among the forms equal to q on sp, one with few terms (for messages only).
+func (a *c16An) simplest(sp *c16Space, q c16Q) c16Q {
+	terms := func(q c16Q) int {
+		n := 0
+		for _, c := range q.c {
+			if c.Sign() != 0 {
+				n++
+			}
+		}
+		if q.k.Sign() != 0 {
+			n++
+		}
+		return n
+	}
+	rows, _ := sp.equations()
+	for improved := true; improved; {
+		improved = false
+		for _, row := range rows {
+			for _, k := range []int64{1, -1, 2, -2} {
+				cand := c16Q{c: map[string]*big.Rat{}, k: new(big.Rat).Set(q.k)}
+				for s, c := range q.c {
+					cand.c[s] = new(big.Rat).Set(c)
+				}
+				f := big.NewRat(k, 1)
+				for j, d := range a.dims {
+					if row[j].Sign() == 0 {
+						continue
+					}
+					if cand.c[d] == nil {
+						cand.c[d] = new(big.Rat)
+					}
+					cand.c[d].Add(cand.c[d], new(big.Rat).Mul(f, row[j]))
+				}
+				cand.k.Add(cand.k, new(big.Rat).Mul(f, row[len(a.dims)]))
+				if terms(cand) < terms(q) {
+					q, improved = cand, true
+				}
+			}
+		}
+	}
+	return q
+}
+
 // rowsOf: the value of every dimension when p arrives at the loop head.
 func (a *c16An) rowsOf(p *c16Path, gEnd LinForm) []LinForm {
 	x := a.x
@@ -1392,23 +1442,6 @@ func (a *c16An) rowsOf(p *c16Path, gEnd LinForm) []LinForm {
 		}
 	}
 	return rows
-}
-
-// gAfter: the ghost counter after the deliveries of p, starting from g0.
-func c16GAfter(p *c16Path, g0 LinForm, fresh func() string) LinForm {
-	g := g0
-	for _, d := range p.st.dels {
-		s, ok := d.entries.(c16S)
-		if !ok {
-			return linLeaf(fresh())
-		}
-		n, ok := c16SliceLen(s)
-		if !ok {
-			return linLeaf(fresh())
-		}
-		g = g.add(n, 1)
-	}
-	return g
 }
 
 func (a *c16An) vecs(m *c16Map) (A []c16Vec, c c16Vec, free map[string]c16Vec) {
@@ -1448,8 +1481,100 @@ func (a *c16An) image(A []c16Vec, v c16Vec) c16Vec {
 	return out
 }
 
-// space: the affine hull of the head states, leaving the round paths of one effect out.
-func (a *c16An) space(without string) *c16Space {
+// pathEqs: what the tests passed on the way say about the state the path began in, as equalities
+// over the dimensions: a test that came out "=" (both X − Y ≥ 0 and Y − X ≥ 0 were recorded), or
+// "the length of a slice is ≤ 0" (a length is never negative).
+func (a *c16An) pathEqs(p *c16Path) []LinForm {
+	facts := append([]LinForm{}, p.st.facts...)
+	seenLen := map[string]bool{}
+	for _, f := range p.st.facts {
+		for s, c := range f.Coef {
+			if c != 0 && strings.HasPrefix(s, "len(") && !seenLen[s] {
+				seenLen[s] = true
+				facts = append(facts, linLeaf(s))
+			}
+		}
+	}
+	var out []LinForm
+	seen := map[string]bool{}
+	for i, f := range facts {
+		pure := true
+		for s, c := range f.Coef {
+			if _, isDim := a.index[s]; c != 0 && !isDim {
+				pure = false
+			}
+		}
+		if !pure {
+			continue
+		}
+		for j, g := range facts {
+			if i < j && f.add(g, 1).String() == c16Zero().String() {
+				k := f.String()
+				if !seen[k] && !seen[g.String()] {
+					seen[k] = true
+					out = append(out, f)
+				}
+			}
+		}
+	}
+	return out
+}
+
+// restrict: the states of sp in which the equalities eqs hold (nil: there are none).
+func (a *c16An) restrict(sp *c16Space, eqs []LinForm) *c16Space {
+	cur := sp
+	for _, e := range eqs {
+		if cur.pt == nil {
+			return nil
+		}
+		c := c16NewVec(len(a.dims))
+		for s, co := range e.Coef {
+			if j, ok := a.index[s]; ok {
+				c[j].SetInt64(co)
+			}
+		}
+		dot := func(v c16Vec) *big.Rat {
+			t := new(big.Rat)
+			for i := range v {
+				t.Add(t, new(big.Rat).Mul(c[i], v[i]))
+			}
+			return t
+		}
+		v0 := dot(cur.pt)
+		v0.Add(v0, big.NewRat(e.Const, 1))
+		pivot := -1
+		ws := make([]*big.Rat, len(cur.dirs))
+		for i, d := range cur.dirs {
+			ws[i] = dot(d)
+			if ws[i].Sign() != 0 && pivot < 0 {
+				pivot = i
+			}
+		}
+		if pivot < 0 {
+			if v0.Sign() != 0 {
+				return nil
+			}
+			continue
+		}
+		next := &c16Space{dim: cur.dim}
+		pt := cur.pt.copy()
+		pt.axpy(new(big.Rat).Neg(new(big.Rat).Quo(v0, ws[pivot])), cur.dirs[pivot])
+		next.addPoint(pt)
+		for i, d := range cur.dirs {
+			if i == pivot {
+				continue
+			}
+			nd := d.copy()
+			nd.axpy(new(big.Rat).Neg(new(big.Rat).Quo(ws[i], ws[pivot])), cur.dirs[pivot])
+			next.addDir(nd)
+		}
+		cur = next
+	}
+	return cur
+}
+
+// space: the affine hull of the head states that the start of a range and the chosen rounds produce.
+func (a *c16An) space(include func(m *c16Map) bool) *c16Space {
 	sp := &c16Space{dim: len(a.dims)}
 	for _, b := range a.bases {
 		_, c, free := a.vecs(b)
@@ -1464,16 +1589,20 @@ func (a *c16An) space(without string) *c16Space {
 	for changed := true; changed; {
 		changed = false
 		for _, m := range a.maps {
-			if m.sig == without {
+			if !include(m) {
 				continue
 			}
 			A, c, free := a.vecs(m)
-			img := a.image(A, sp.pt)
+			from := a.restrict(sp, a.pathEqs(m.p)) // the states in which the tests of this round can come out as they did
+			if from == nil || from.pt == nil {
+				continue
+			}
+			img := a.image(A, from.pt)
 			img.axpy(big.NewRat(1, 1), c)
 			if sp.addPoint(img) {
 				changed = true
 			}
-			for _, d := range append([]c16Vec{}, sp.dirs...) {
+			for _, d := range from.dirs {
 				if sp.addDir(a.image(A, d)) {
 					changed = true
 				}
@@ -1502,19 +1631,33 @@ type c16Failure struct {
 	detail string
 }
 
-func (a *c16An) check(sp *c16Space, without string) []c16Failure {
+// check: the obligations of the chosen paths, decided under the equalities of sp.
+func (a *c16An) check(sp *c16Space, of func(p *c16Path) bool) []c16Failure {
 	var out []c16Failure
-	sigOf := map[*c16Path]string{}
-	for _, m := range a.maps {
-		sigOf[m.p] = m.sig
-	}
+	under := map[*c16Path]*c16Space{}
 	for _, ob := range a.obs {
+		if !of(ob.p) {
+			continue
+		}
+		if _, ok := under[ob.p]; !ok {
+			under[ob.p] = sp
+			if ob.p.kind != "base" {
+				under[ob.p] = a.restrict(sp, a.pathEqs(ob.p))
+			}
+		}
+		sp := under[ob.p]
+		if sp == nil || sp.pt == nil {
+			continue // no state at the head of the loop lets the tests of this path come out as they did
+		}
 		switch {
 		case ob.failed != "":
 			out = append(out, c16Failure{ob, ob.failed})
 		case ob.eq != nil:
+			if ob.vac != nil && a.reduce(sp, c16QOf(*ob.vac)).isZero() {
+				continue // an empty chunk lies anywhere
+			}
 			if res := a.reduce(sp, c16QOf(*ob.eq)); !res.isZero() {
-				out = append(out, c16Failure{ob, ob.what + ": they differ by " + a.show(res)})
+				out = append(out, c16Failure{ob, ob.what + ": they differ by " + a.show(a.simplest(sp, res))})
 			}
 		case ob.geq != nil:
 			ok := false
@@ -1528,7 +1671,38 @@ func (a *c16An) check(sp *c16Space, without string) []c16Failure {
 			}
 		}
 	}
-	_ = without
+	return out
+}
+
+// broken: the equalities of sp that the round m does not keep, with what it makes of them.
+func (a *c16An) broken(sp *c16Space, m *c16Map) []string {
+	var out []string
+	from := a.restrict(sp, a.pathEqs(m.p))
+	if from == nil || from.pt == nil {
+		return nil
+	}
+	rows, _ := sp.equations()
+	for _, row := range rows {
+		eq := c16Q{c: map[string]*big.Rat{}, k: new(big.Rat).Set(row[len(a.dims)])}
+		after := c16Q{c: map[string]*big.Rat{}, k: new(big.Rat).Set(row[len(a.dims)])}
+		for j, d := range a.dims {
+			if row[j].Sign() == 0 {
+				continue
+			}
+			eq.c[d] = new(big.Rat).Set(row[j])
+			nv := c16QOf(m.rows[j])
+			for s, c := range nv.c {
+				if after.c[s] == nil {
+					after.c[s] = new(big.Rat)
+				}
+				after.c[s].Add(after.c[s], new(big.Rat).Mul(row[j], c))
+			}
+			after.k.Add(after.k, new(big.Rat).Mul(row[j], nv.k))
+		}
+		if res := a.reduce(from, after); !res.isZero() {
+			out = append(out, fmt.Sprintf("%s = 0 becomes %s", a.show(eq), a.show(a.simplest(from, res))))
+		}
+	}
 	return out
 }
 
@@ -1570,7 +1744,8 @@ func (a *c16An) obligations(p *c16Path, g0 LinForm) LinForm {
 					return off, false
 				}
 				l := at.add(linLeaf("g"), -1)
-				a.obs = append(a.obs, &c16Ob{p: p, clause: clause, where: where, eq: &l,
+				n, _ := ch.length()
+				a.obs = append(a.obs, &c16Ob{p: p, clause: clause, where: where, eq: &l, vac: &n,
 					what: fmt.Sprintf("%s: the entries kept in %s since earlier rounds, which start at the first index not delivered when the round began (%s), are placed at index %s", what, a.disp(ch.head), a.showL(linLeaf("g")), a.showL(at))})
 			case !ch.ok:
 				a.obs = append(a.obs, &c16Ob{p: p, clause: "failed-request-not-delivered", where: where, failed: what + " contains the response variable of a request that failed (or was never made): those are not entries the log returned for these indices"})
@@ -1672,6 +1847,36 @@ func c16Account(r *Run, fn *ssa.Function, q *c16Request, req ssa.CallInstruction
 	if x.recv == nil {
 		fail("the worker does not receive ranges from a channel it was given")
 		return
+	}
+	// the callback is invoked by the worker function itself: a function literal that got hold of it
+	// (or a call it is handed on to) could deliver behind the walk's back
+	isCbCell := func(v ssa.Value) bool {
+		if v == ssa.Value(x.cb) {
+			return true
+		}
+		al, ok := v.(*ssa.Alloc)
+		return ok && c16CellOnce(al) == ssa.Value(x.cb)
+	}
+	for _, f := range append([]*ssa.Function{fn}, fn.AnonFuncs...) {
+		eachInstr(f, func(in ssa.Instruction) {
+			switch y := in.(type) {
+			case *ssa.MakeClosure:
+				for _, b := range y.Bindings {
+					if isCbCell(b) {
+						x.giveUp("the callback is captured by a function literal (" + r.Where(in) + ")")
+					}
+				}
+			case ssa.CallInstruction:
+				for _, arg := range y.Common().Args {
+					if isCbCell(arg) {
+						x.giveUp("the callback is handed on to " + CalleeOf(y) + " (" + r.Where(in) + ")")
+					}
+					if u, ok := arg.(*ssa.UnOp); ok && u.Op == token.MUL && isCbCell(u.X) {
+						x.giveUp("the callback is handed on to " + CalleeOf(y) + " (" + r.Where(in) + ")")
+					}
+				}
+			}
+		})
 	}
 	x.H, x.loop = c16LoopOf(fn, q.issue.Block())
 	if x.H == nil || x.loop[x.recv.Block()] {
@@ -1882,8 +2087,23 @@ func c16Account(r *Run, fn *ssa.Function, q *c16Request, req ssa.CallInstruction
 	for _, m := range a.maps {
 		m.sig = a.signature(m)
 	}
-	full := a.space("")
-	fails := a.check(full, "")
+	// The rounds that fetch (a request succeeded) are the mechanism: what they and the start of a range
+	// keep at the head of the loop is decided first, with their obligations and those of the ways
+	// out of the loop.  Every other kind of round (failed request, …) must then keep the same.
+	fetches := func(m *c16Map) bool {
+		for _, rq := range m.p.st.reqs {
+			if rq.ok {
+				return true
+			}
+		}
+		return false
+	}
+	isMap := map[*c16Path]*c16Map{}
+	for _, m := range a.maps {
+		isMap[m.p] = m
+	}
+	core := a.space(fetches)
+	fails := a.check(core, func(p *c16Path) bool { m := isMap[p]; return m == nil || fetches(m) })
 	if os.Getenv("CTVERIF_C16_DEBUG") != "" { // dev aid: the paths walked and what each makes of the loop-carried values
 		fmt.Fprintf(os.Stderr, "dims: %v  kept: %v  last: %s\n", a.dims, a.kept, a.showL(a.last))
 		for _, m := range append(append([]*c16Map{}, a.bases...), a.maps...) {
@@ -1912,95 +2132,68 @@ func c16Account(r *Run, fn *ssa.Function, q *c16Request, req ssa.CallInstruction
 		{"kept", "what a round keeps for a later batch lies at consecutive indices from the first index not delivered, and nothing is kept when a range is taken up"},
 		{"kept-fresh", "entries are never collected on the backing array of a batch already handed to the callback"},
 		{"range-complete", "the worker turns to the next range only when the first index not delivered has passed the last index of the range"},
+		{"round", "every kind of round keeps, at the head of the loop, the equalities between request cursor, batch label, entries kept and first index not delivered that the fetching rounds keep"},
 	}
-	inv := a.invariant(full)
-	if len(fails) == 0 {
-		for _, c := range clauses {
-			r.Pass("runWorker:"+c.key, r.FnPos(fn), c.what)
-		}
-		r.Pass("runWorker:accounting", r.FnPos(fn), fmt.Sprintf("%d paths walked (%d from the receive of a range to the loop, %d rounds back to its head, %d on to the next range, %d returns); at the head of the loop: %s", len(x.paths), count["base"], count["back"], count["exit"], count["return"], inv))
-		return
-	}
-	// one kind of round that alone leaves what all the others keep?
-	var sigs []string
-	seenSig := map[string]bool{}
-	for _, m := range a.maps {
-		if !seenSig[m.sig] {
-			seenSig[m.sig] = true
-			sigs = append(sigs, m.sig)
-		}
-	}
-	for _, sig := range sigs {
-		// … the others must include a round that fetches: what only idle rounds keep says nothing
-		fetches := false
-		for _, m := range a.maps {
-			for _, rq := range m.p.st.reqs {
-				if m.sig != sig && rq.ok {
-					fetches = true
-				}
-			}
-		}
-		sp := a.space(sig)
-		if !fetches || sp.pt == nil || len(a.check(sp, sig)) > 0 {
-			continue
-		}
-		var culprit *c16Map
-		for _, m := range a.maps {
-			if m.sig == sig && culprit == nil {
-				culprit = m
-			}
-		}
-		var broken []string
-		rows, _ := sp.equations()
-		for _, row := range rows {
-			eq := c16Q{c: map[string]*big.Rat{}, k: new(big.Rat).Set(row[len(a.dims)])}
-			after := c16Q{c: map[string]*big.Rat{}, k: new(big.Rat).Set(row[len(a.dims)])}
-			for j, d := range a.dims {
-				if row[j].Sign() == 0 {
-					continue
-				}
-				eq.c[d] = new(big.Rat).Set(row[j])
-				nv := c16QOf(culprit.rows[j])
-				for s, c := range nv.c {
-					if after.c[s] == nil {
-						after.c[s] = new(big.Rat)
-					}
-					after.c[s].Add(after.c[s], new(big.Rat).Mul(row[j], c))
-				}
-				after.k.Add(after.k, new(big.Rat).Mul(row[j], nv.k))
-			}
-			if res := a.reduce(sp, after); !res.isZero() {
-				broken = append(broken, fmt.Sprintf("%s = 0 becomes %s", a.show(eq), a.show(res)))
-			}
-		}
-		if len(broken) == 0 {
-			continue
-		}
-		where := r.Where(culprit.p.at)
-		if len(culprit.p.st.reqs) > 0 {
-			where = r.Where(x.issue)
-		}
-		r.Fail("runWorker:round["+a.class(culprit.p)+"]", where, fmt.Sprintf("a round of this kind (%s) breaks what the start of a range and every other round keep between the request cursor, the label of the next batch, the entries kept and the first index of the range not delivered yet (first-undelivered): %s when the round ends. What then goes wrong: %s", a.class(culprit.p), strings.Join(broken, "; "), fails[0].detail))
-		for _, c := range clauses {
-			r.Pass("runWorker:"+c.key, r.FnPos(fn), c.what+" (given the equalities all other rounds keep)")
-		}
-		return
-	}
+	inv := a.invariant(core)
 	failedClause := map[string]bool{}
 	seen := map[string]bool{}
-	for _, f := range fails {
-		failedClause[f.ob.clause] = true
-		key := "runWorker:" + f.ob.clause + "[" + a.class(f.ob.p) + "]"
-		if seen[key+f.detail] {
-			continue
+	report := func(fs []c16Failure) {
+		for _, f := range fs {
+			failedClause[f.ob.clause] = true
+			key := "runWorker:" + f.ob.clause + "[" + a.class(f.ob.p) + "]"
+			if seen[key+f.detail] {
+				continue
+			}
+			seen[key+f.detail] = true
+			r.Fail(key, f.ob.where, f.detail+" (the start of a range and the rounds that fetch keep, at the head of the loop: "+inv+")")
 		}
-		seen[key+f.detail] = true
-		r.Fail(key, f.ob.where, f.detail+" (at the head of the loop: "+inv+")")
+	}
+	if len(fails) > 0 {
+		// what the fetching rounds do to the loop-carried values (the equalities printed are what survives that)
+		var eff []string
+		seenSig := map[string]bool{}
+		for _, m := range a.maps {
+			if !fetches(m) || seenSig[m.sig] {
+				continue
+			}
+			seenSig[m.sig] = true
+			var ch []string
+			for i, row := range m.rows {
+				if row.String() != linLeaf(a.dims[i]).String() {
+					ch = append(ch, a.disp(a.dims[i])+" := "+a.showL(row))
+				}
+			}
+			eff = append(eff, "a round ["+a.class(m.p)+"] makes "+strings.Join(ch, ", "))
+		}
+		inv += "; " + strings.Join(eff, "; ")
+	}
+	report(fails)
+	if len(fails) == 0 {
+		seenSig := map[string]bool{}
+		for _, m := range a.maps {
+			if fetches(m) || seenSig[m.sig] {
+				continue
+			}
+			seenSig[m.sig] = true
+			if br := a.broken(core, m); len(br) > 0 {
+				failedClause["round"] = true
+				where := r.Where(m.p.at)
+				if len(m.p.st.reqs) > 0 {
+					where = r.Where(x.issue)
+				}
+				r.Fail("runWorker:round["+a.class(m.p)+"]", where, fmt.Sprintf("a round of this kind breaks what the start of a range and the rounds that fetch keep between the request cursor, the label of the next batch, the entries kept and the first index of the range not delivered yet (first-undelivered): %s when the round ends — from then on the next request, the next label or the entries kept are off by that much (indices skipped or delivered twice, or entries under the wrong index)", strings.Join(br, "; ")))
+			}
+			sig := m.sig
+			report(a.check(core, func(p *c16Path) bool { q := isMap[p]; return q != nil && q.sig == sig }))
+		}
 	}
 	for _, c := range clauses {
 		if !failedClause[c.key] {
 			r.Pass("runWorker:"+c.key, r.FnPos(fn), c.what)
 		}
+	}
+	if len(failedClause) == 0 {
+		r.Pass("runWorker:accounting", r.FnPos(fn), fmt.Sprintf("%d paths walked (%d from the receive of a range to the loop, %d rounds back to its head, %d on to the next range, %d returns); at the head of the loop: %s", len(x.paths), count["base"], count["back"], count["exit"], count["return"], inv))
 	}
 }
 
